@@ -98,7 +98,7 @@ PROPS = {
         "units": [
             {"pkg": "validation", "run": "^TestVerif_C10_CrossValidation$", "checks": {Q: 4000, T: 100000}, "shards": {Q: 2, T: 16}, "timeout": {Q: 600, T: 3000}},
             {"pkg": "validation", "run": "^TestVerif_C10_Hash$", "checks": {Q: 300, T: 5000}, "shards": {Q: 2, T: 16}, "timeout": {Q: 600, T: 3000}},
-            {"pkg": "provider/manifest", "run": "^TestVerif_C10_VersionGate$", "checks": {Q: 500, T: 6000}, "shards": {Q: 4, T: 16}, "timeout": {Q: 900, T: 3000}, "shrinktime": "40s"},
+            {"pkg": "provider/manifest", "run": "^TestVerif_C10_VersionGate$", "checks": {Q: 800, T: 8000}, "shards": {Q: 4, T: 16}, "timeout": {Q: 900, T: 3000}, "shrinktime": "40s"},
         ],
     },
     "C18": {
